@@ -236,6 +236,19 @@ impl ProgressDrawTarget {
     pub(crate) fn adjust_last_line_count(&mut self, adjust: LineAdjust) {
         self.kind.adjust_last_line_count(adjust);
     }
+
+    /// The number of lines the next draw is going to clear
+    pub(crate) fn last_line_count(&self) -> VisualLines {
+        match &self.kind {
+            TargetKind::Term {
+                last_line_count, ..
+            } => *last_line_count,
+            TargetKind::TermLike {
+                last_line_count, ..
+            } => *last_line_count,
+            _ => VisualLines::default(),
+        }
+    }
 }
 
 #[derive(Debug)]
